@@ -587,6 +587,36 @@ var codecImpl = map[string]core.Adapter{
 	},
 	// law: paragraphs written one after another through the encoder read back as the same
 	// number of paragraphs (structs that write no field at all contribute none)
+	// law: values the walkers cannot handle (not a pointer, not a struct, nil) give an error, not a panic
+	"law-codecmisuse": func(a []string) string {
+		var verdict string
+		try := func(what string, f func() error) {
+			defer func() {
+				if r := recover(); r != nil && verdict == "" {
+					verdict = fmt.Sprintf("FAIL %s panics: %v", what, r)
+				}
+			}()
+			if err := f(); err == nil && verdict == "" {
+				verdict = "FAIL " + what + " succeeds"
+			}
+		}
+		text := "Name: x\nReq: y\nReq-Commas: a\nReq-Versions: 1\n"
+		var pb ProbeBasic
+		try("Unmarshal into a struct value", func() error { return control.Unmarshal(pb, strings.NewReader(text)) })
+		try("Unmarshal into a pointer to an int", func() error { n := 0; return control.Unmarshal(&n, strings.NewReader(text)) })
+		try("Unmarshal into a string", func() error { return control.Unmarshal("x", strings.NewReader(text)) })
+		try("UnpackFromParagraph into a struct value", func() error {
+			return control.UnpackFromParagraph(control.Paragraph{Values: map[string]string{"Name": "x"}, Order: []string{"Name"}}, pb)
+		})
+		try("Marshal of an int", func() error { return control.Marshal(io.Discard, 5) })
+		try("Marshal of a pointer to an int", func() error { n := 5; return control.Marshal(io.Discard, &n) })
+		try("ConvertToParagraph of a struct value", func() error { _, err := control.ConvertToParagraph(pb); return err })
+		try("ConvertToParagraph of a pointer to a string", func() error { s := "x"; _, err := control.ConvertToParagraph(&s); return err })
+		if verdict != "" {
+			return verdict
+		}
+		return "ok"
+	},
 	"law-enccount": func(a []string) string {
 		text, err := encodeSequence(a)
 		if err != nil {
@@ -952,6 +982,10 @@ func streamCodec(g *core.G) {
 			o, a := codecOp(op, "ProbeSparse", args...)
 			g.Emit(o, a...)
 		}
+	}
+	{
+		o, a := codecOp("law-codecmisuse", "ProbeBasic")
+		g.Emit(o, a...)
 	}
 	// unsupported kinds: an error from both walkers, never a panic
 	for _, typ := range []string{"ProbeBad", "ProbeBad2"} {
